@@ -35,10 +35,10 @@ def obligations(tier, ctx):
     from symcheck import consts
     nsz = len(consts.size_cases(70000))
     for code in (-32601, -32603):
-        for pat in ((0, 2) if tier == "quick" else (0, 1, 2, 3, 4)):
+        for pat in ((0, 6, 7, 8) if tier == "quick" else (0, 1, 2, 3, 4, 6, 7, 8)):
             obs.append(Ob(name=f"process_long_c{abs(code)}_p{pat}", params=[("k", "int")], pre=[f"0 <= k < {nsz}"], call=f"H.process_long({code}, k, {pat}, False)",
                           backend="P", timeout=300, family="size: error message of every length c-1, c, c+1 for the integer constants c of the source"))
-    for pat in ((2,) if tier == "quick" else (0, 2, 4)):
+    for pat in ((7,) if tier == "quick" else (0, 2, 4, 6, 7, 8)):
         obs.append(Ob(name=f"process_longdata_p{pat}", params=[("k", "int")], pre=[f"0 <= k < {nsz}"], call=f"H.process_long(-32603, k, {pat}, True)",
                       backend="P", timeout=300, family="size: error data of every length c-1, c, c+1"))
         obs.append(Ob(name=f"api_long_p{pat}", params=[("k", "int")], pre=[f"0 <= k < {nsz}"], call=f"H.api_long(-32602, k, {pat})",
